@@ -1178,3 +1178,32 @@ gen(CI + 'CliffordGate.forward#any_state')(_g_any_gate('forward'))
 gen(CI + 'CliffordGate.backward#any_state')(_g_any_gate('backward'))
 gen(CI + 'CliffordLayer.forward#state')(_g_any_layer('forward'))
 gen(CI + 'CliffordLayer.backward#state')(_g_any_layer('backward'))
+
+
+@gen(PA + 'PauliPolynomial.__getitem__#int')
+def g_pgi_int(rng, level=0, n_random=100):
+    for _ in range(n_random):
+        L = int(rng.integers(1, 5))
+        yield {'self': _rand_poly(rng, int(rng.integers(1, 4)), L), 'item': int(rng.integers(0, L))}
+
+
+@gen(PA + 'PauliPolynomial.__getitem__#slice')
+def g_pgi_slice(rng, level=0, n_random=100):
+    for _ in range(n_random):
+        L = int(rng.integers(0, 5))
+        a, b = sorted(int(x) for x in rng.integers(0, L + 1, 2))
+        yield {'self': _rand_poly(rng, int(rng.integers(1, 4)), L), 'item': slice(a, b)}
+
+
+@gen(PA + 'PauliPolynomial.__getitem__#mask')
+def g_pgi_mask(rng, level=0, n_random=100):
+    for _ in range(n_random):
+        L = int(rng.integers(0, 5))
+        yield {'self': _rand_poly(rng, int(rng.integers(1, 4)), L), 'item': rng.integers(0, 2, L).astype(bool)}
+
+
+@gen(PA + 'PauliPolynomial.__getitem__#index')
+def g_pgi_index(rng, level=0, n_random=100):
+    for _ in range(n_random):
+        L = int(rng.integers(1, 5))
+        yield {'self': _rand_poly(rng, int(rng.integers(1, 4)), L), 'item': rng.integers(0, L, int(rng.integers(0, 6))).astype(np.int64)}
